@@ -15,6 +15,7 @@ def run(ctx, R, tier):
     mix(F, R)
     clamps(F, R)
     zero_div(F, R)
+    delay_scratch(F, R)
     from .c02 import nested_slices
     R.floor('B.C13.slice', nested_slices(F, R, rule='B.C13.slice'), 1)
     # 'independent of how the input is split into process calls': a tweened parameter is read per frame with
@@ -143,6 +144,29 @@ def clamps(F, R):
     kinds = set(k.split('|')[-1].split('#')[0] for k in R.keys('B.C13.clamp'))
     for want in ('filter:tan', 'filter:k', 'eq:tan', 'eq:1/q'):
         R.check(want in kinds, 'B.C13.clamp', 'anchor-kind:' + want, 'no %s site recognised (fail closed)' % want)
+
+
+def delay_scratch(F, R, rule='B.C13.slicing'):
+    """The delay walks its input in passes no longer than the delay line and keeps the wet frames of a pass in a scratch buffer
+    that the next pass overwrites: every use of that scratch buffer lies inside the pass loop (the loop over
+    `chunks_mut(buffer.len())`).  A use after the loop sees the last pass only - right while a call fits into one pass (any
+    ordinary delay time), wrong for a delay line shorter than the call, i.e. dependent on how the input is split."""
+    b = F.body('<effect::delay::Delay as effect::Effect>::process')
+    if not R.check(b is not None, rule, 'anchor:delay-scratch', 'Delay::process not found'):
+        return
+    from .c02 import iter_source
+    passes = [l for l in b.loops() if 'chunks_mut' in (iter_source(b, l) or '')]
+    uses = set()
+    for bb, pl, kind in b.all_places():
+        pr = pl['p']
+        if pl['l'] == 1 and len(pr) >= 2 and pr[0][0] == 'deref' and pr[1][0] == 'field' and pr[1][2] == 'temp_buffer':
+            uses.add(bb)
+    if not R.check(len(passes) == 1 and bool(uses), rule, 'anchor:delay-scratch:shape', 'the pass loop over chunks_mut(..) / the scratch buffer of Delay::process was not found'):
+        return
+    outside = sorted(x for x in uses if x not in passes[0]['blocks'])
+    R.check(not outside, rule, 'delay:scratch-in-pass', 'Delay::process uses its scratch buffer outside the pass that filled it (at %s): with a delay line '
+            'shorter than the call the output depends on how the input is split' % (b.where(outside[0]) if outside else ''),
+            detail={'uses': len(uses)}, where=b.file)
 
 
 def _positive_by_shape(d):
